@@ -63,6 +63,7 @@ const (
 	OFToU   // float -> unsigned bv (RTZ)
 	OFToS
 	OFToF // float<->float conversion
+	OFDurSec // time.Duration(d).Seconds(): float64(d/1e9) + float64(d%1e9)/1e9, monotone in d
 )
 
 var opSMT = map[Op]string{
@@ -723,6 +724,13 @@ func (c *TermCtx) FCmp(op Op, x, y *Term) *Term {
 		if r := c.monoFCmp(op, x, y); r != nil {
 			return r
 		}
+		if r := c.monoDurCmp(op, x, y); r != nil {
+			return r
+		}
+	}
+	if op == OFEq && ((x.op == OFDurSec && y.IsConst()) || (y.op == OFDurSec && x.IsConst())) {
+		// a == k  <=>  a <= k and k <= a
+		return c.And(c.FCmp(OFLe, x, y), c.FCmp(OFLe, y, x))
 	}
 	return c.mk(op, 0, x, y, nil, 0, "")
 }
@@ -863,6 +871,86 @@ func (c *TermCtx) FToF(fw int, x *Term) *Term {
 	return c.mk(OFToF, fw, x, nil, nil, 0, "")
 }
 
+// DurSeconds is time.Duration(d).Seconds() for a 64-bit signed nanosecond count.
+func (c *TermCtx) DurSeconds(d *Term) *Term {
+	if d.IsConst() {
+		v := d.SVal()
+		sec := v / 1000000000
+		nsec := v % 1000000000
+		return c.FConst(WF64, float64(sec)+float64(nsec)/1e9)
+	}
+	return c.mk(OFDurSec, WF64, d, nil, nil, 0, "")
+}
+
+func durSecondsNative(v int64) float64 {
+	return float64(v/1000000000) + float64(v%1000000000)/1e9
+}
+
+// monoDurCmp rewrites comparisons between DurSeconds(d) and a float constant into exact signed thresholds
+// on d (DurSeconds is monotone non-decreasing in d).
+func (c *TermCtx) monoDurCmp(op Op, x, y *Term) *Term {
+	var d *Term
+	var k float64
+	gLeft := false
+	switch {
+	case x.op == OFDurSec && y.IsConst():
+		d, k, gLeft = x.a, y.FVal(), true
+	case y.op == OFDurSec && x.IsConst():
+		d, k, gLeft = y.a, x.FVal(), false
+	default:
+		return nil
+	}
+	if math.IsNaN(k) {
+		return c.False
+	}
+	const minI, maxI = math.MinInt64, math.MaxInt64
+	var pred func(v int64) bool
+	if gLeft {
+		if op == OFLt {
+			pred = func(v int64) bool { return durSecondsNative(v) < k }
+		} else {
+			pred = func(v int64) bool { return durSecondsNative(v) <= k }
+		}
+		if !pred(minI) {
+			return c.False
+		}
+		if pred(maxI) {
+			return c.True
+		}
+		lo, hi := int64(minI), int64(maxI)
+		for uint64(hi)-uint64(lo) > 1 {
+			mid := int64(uint64(lo) + (uint64(hi)-uint64(lo))/2)
+			if pred(mid) {
+				lo = mid
+			} else {
+				hi = mid
+			}
+		}
+		return c.Cmp(OSle, d, c.Const(64, uint64(lo)))
+	}
+	if op == OFLt {
+		pred = func(v int64) bool { return k < durSecondsNative(v) }
+	} else {
+		pred = func(v int64) bool { return k <= durSecondsNative(v) }
+	}
+	if pred(minI) {
+		return c.True
+	}
+	if !pred(maxI) {
+		return c.False
+	}
+	lo, hi := int64(minI), int64(maxI)
+	for uint64(hi)-uint64(lo) > 1 {
+		mid := int64(uint64(lo) + (uint64(hi)-uint64(lo))/2)
+		if pred(mid) {
+			hi = mid
+		} else {
+			lo = mid
+		}
+	}
+	return c.Cmp(OSle, c.Const(64, uint64(hi)), d)
+}
+
 // ---------------------------------------------------------------- printing
 
 func sortSMT(w int) string {
@@ -934,6 +1022,9 @@ func bodySMT(t *Term) string {
 		return fmt.Sprintf("((_ fp.to_sbv %d) RTZ %s)", t.w, ref(t.a))
 	case OFToF:
 		return fmt.Sprintf("((_ to_fp %s) RNE %s)", fpParams(int(t.w)), ref(t.a))
+	case OFDurSec:
+		d := ref(t.a)
+		return fmt.Sprintf("(fp.add RNE ((_ to_fp 11 53) RNE (bvsdiv %s #x000000003b9aca00)) (fp.div RNE ((_ to_fp 11 53) RNE (bvsrem %s #x000000003b9aca00)) ((_ to_fp 11 53) #x41cdcd6500000000)))", d, d)
 	}
 	name := opSMT[t.op]
 	var sb strings.Builder
